@@ -383,7 +383,7 @@ def run(ctx):
     r.check(ok, "%s#cycle-over-list" % sp.qname, "cycle is not built over the supplied list / extra advances outside the random start", where(sp, sp.node))
 
     # ---- R6 producer wiring
-    r = ctx.rule("R6", "one partitioner per topic, called with the client's current partition list", 1, "A")
+    r = ctx.rule("R6", "one partitioner per topic and per producer, called with the client's current partition list", 3, "A")
     np_ = ctx.func("producer:Producer._next_partition")
     cn = ctx.cfg(np_)
     fn = ctx.facts(np_, kill_on_suspend=False)
@@ -417,6 +417,19 @@ def run(ctx):
     r.check(not muts_, "producer:Producer#partitioners-only-grow", "the partitioner table is modified by %s; an entry is created once per topic and "
             "never replaced or removed" % muts_, where(np_, np_.node), "a metadata reset mid-cycle pops the topic's partitioner: the round-robin "
             "cycle restarts from the first partition although the list is unchanged")
+    # the table (and the class that fills it) belong to this producer: created in its constructor, not shared through
+    # the class object by every Producer of the process
+    init_ = prog.method(pci, "__init__")
+    own = {}
+    for attr_ in ("partitioners", "partitioner_class"):
+        ws_ = [(f_, n_) for f_, k_, n_ in prog.attr_accesses(pci, attr_, False) if k_ == "write" and f_ is init_]
+        own[attr_] = bool(ws_)
+    cinit = ctx.cfg(init_)
+    fresh = [n for n in cinit.nodes if isinstance(node_assign_value(n, "partitioners"), (ast.Dict, ast.Call)) and norm(node_assign_value(n, "partitioners")) in ("{}", "dict()")]
+    r.check(all(own.values()) and bool(fresh) and not cinit.normal_exits_from(cinit.entry.id, avoid=[n.id for n in fresh]), "producer:Producer#partitioners-per-instance",
+            "the constructor does not give every Producer its own empty partitioner table and its partitioner class (%s)" % own, where(init_, init_.node),
+            "two producers sending to the same topic name share one round-robin cycle (each sees every other partition only), or a hashed "
+            "producer silently uses the other's round-robin partitioner")
     r.check(ok, "%s#one-partitioner-per-topic" % np_.qname, "partitioner is re-created per call or not given the current partition list", where(np_, np_.node),
             "round robin restarts at every send: all messages go to one partition")
 
